@@ -46,6 +46,85 @@ def introspect(classes):
     return out
 
 
+RESERVED = {"cls", "component_type", "validate", "self"}
+
+
+def derived_keys(names, exhaustive):
+    """keywords that resemble member names without being one: every proper prefix / suffix / infix (length >= 1) of some member
+    names (quick: first, last, longest, shortest; thorough: all), single letters, two names joined by ',' / ', ' / '', and the
+    whole sorted list joined.  Deterministic."""
+    names = list(names)
+    if not names:
+        return []
+    pick = names if exhaustive else list(dict.fromkeys([names[0], names[-1], max(names, key=len), min(names, key=len)]))
+    out = []
+    for n in pick:
+        for i in range(len(n)):
+            for j in range(i + 1, len(n) + 1):
+                if j - i < len(n):
+                    out.append(n[i:j])
+    out += list("abcdefghijklmnopqrstuvwxyz_ ,")
+    for a, b in zip(names, names[1:] + names[:1]):
+        out += [a + "," + b, a + ", " + b, a + b]
+        if not exhaustive:
+            break
+    out += [", ".join(sorted(names)), ",".join(names), ", ".join(sorted(names))[1:-1]]
+    bad = set(names) | RESERVED
+    return [k for k in dict.fromkeys(out) if k and k not in bad]
+
+
+def acceptance(classes, table_names, exhaustive):
+    """the factory against info(): every member info() reports is accepted as a keyword, every derived non-member keyword is
+    refused - string and class form, class method and neuroml.utils wrapper (validation off: only the argument check matters)"""
+    import neuroml
+    import neuroml.utils
+    out = []
+    neuroml.disable_build_time_validation()
+    try:
+        for c in classes:
+            r = {"cls": c, "members_refused": [], "nonmembers_accepted": [], "n_members": 0, "n_nonmembers": 0}
+            try:
+                cls = getattr(nml, c)
+                sys.stdout = io.StringIO()
+                info = list(cls().info(return_format="list"))
+                names = list(dict.fromkeys(list(table_names.get(c, [])) + info))
+
+                def attempt(key, i):
+                    sys.stdout = io.StringIO()
+                    arg = c if i % 2 == 0 else cls
+                    try:
+                        if i % 4 < 2:
+                            nml.NeuroMLDocument.component_factory(arg, validate=False, **{key: None})
+                        else:
+                            neuroml.utils.component_factory(arg, False, **{key: None})
+                        return None
+                    except ValueError as e:
+                        m = str(e)
+                        return "ValueError: " + (m[:60] if "is not a permitted argument" not in m[:60] else m[:60]) + (
+                            " .. is not a permitted argument" if "is not a permitted argument" in m and "is not a permitted argument" not in m[:60] else "")
+                    except Exception as e:  # noqa
+                        return type(e).__name__ + ": " + str(e)[:60]
+                for n in info:
+                    for i in (0, 1, 2, 3):
+                        r["n_members"] += 1
+                        e = attempt(n, i)
+                        if e is not None and "is not a permitted argument" in e:
+                            r["members_refused"].append([n, i, e])
+                for i, k in enumerate(derived_keys(names, exhaustive)):
+                    r["n_nonmembers"] += 1
+                    e = attempt(k, i)
+                    if e is None or "is not a permitted argument" not in e:
+                        r["nonmembers_accepted"].append([k, i, e])
+                r["nonmembers_accepted_count"] = len(r["nonmembers_accepted"])
+                r["nonmembers_accepted"] = r["nonmembers_accepted"][:12]
+            except Exception as e:  # noqa
+                r["error"] = type(e).__name__ + ": " + str(e)[:200]
+            out.append(r)
+    finally:
+        neuroml.enable_build_time_validation()
+    return out
+
+
 def module_classes():
     """what parentinfo iterates over: names in dir(module) bound to plain classes"""
     out = []
@@ -138,6 +217,9 @@ def main():
     try:
         out["classes"] = introspect(P.get("classes", []))
         out["module_classes"] = module_classes()
+        if "acceptance" in P:
+            out["acceptance"] = acceptance(P.get("classes", []), P["acceptance"]["names"], P["acceptance"]["exhaustive"])
+            sys.stdout = io.StringIO()
         ids = []
         for case in P.get("idcases", []):
             try:
